@@ -78,7 +78,7 @@ type tagPlugin struct {
 
 var staticTLS *tls.Config
 var staticLeaf *x509.Certificate
-var realCertB64 string
+var realCertB64, realCert2B64, realCertJunkB64 string
 
 func init() {
 	// a self-signed certificate generated once per process (contents never influence control flow)
@@ -94,6 +94,8 @@ func init() {
 	blk, _ := pem.Decode(certPEM)
 	staticLeaf, _ = x509.ParseCertificate(blk.Bytes)
 	realCertB64 = base64.RawStdEncoding.EncodeToString(blk.Bytes)
+	realCert2B64 = base64.RawStdEncoding.EncodeToString(append(append([]byte(nil), blk.Bytes...), blk.Bytes...))
+	realCertJunkB64 = base64.RawStdEncoding.EncodeToString(append(append([]byte(nil), blk.Bytes...), 0, 1))
 }
 
 func (c startCfg) build(r *scriptRunner, timeout time.Duration) *plugin.ClientConfig {
@@ -138,7 +140,7 @@ var (
 	netAlpha   = []string{"tcp", "unix", "", "udp", "TCP", "tcp4", "unixgram"}
 	addrAlpha  = []string{"127.0.0.1:1234", ":1234", "/tmp/s.sock", "", "256.0.0.1:1", "127.0.0.1:99999", "[::1]:80", "127.0.0.1"}
 	protoAlpha = []string{"netrpc", "\x00", "", "grpc", "GRPC", "bogus"}
-	certAlpha  = []string{"\x00", "", "0123456789", strings.Repeat("!", 60), strings.Repeat("QUJD", 15), "REAL"}
+	certAlpha  = []string{"\x00", "", "0123456789", strings.Repeat("!", 60), strings.Repeat("QUJD", 15), "REAL", strings.Repeat("\r", 60), "REAL2", "REALJUNK", "REALCR"}
 	muxAlpha   = []string{"\x00", "", "true", "false", "1", "yes"}
 	shapeAlpha = []string{"LF", "CRLF", "blanks", "extra8", "trunc3", "trunc2", "trunc1", "trunc0", "nonl-eof", "nonl-silence", "emptyfirst", "long70k", "exit-before", "silence", "closed-alive", "nonl-closed-alive"}
 )
@@ -168,8 +170,15 @@ func (l lineSpec) fields() []string {
 		if v == "\x00" {
 			v = ""
 		}
-		if v == "REAL" {
+		switch v {
+		case "REAL":
 			v = realCertB64
+		case "REAL2": // two certificates, concatenated DER
+			v = realCert2B64
+		case "REALJUNK": // one certificate followed by two stray bytes
+			v = realCertJunkB64
+		case "REALCR": // the valid certificate with carriage returns inside the base64 text (decoders skip them)
+			v = realCertB64[:40] + "\r" + realCertB64[40:80] + "\r\r" + realCertB64[80:]
 		}
 		fs = append(fs, v)
 	}
@@ -371,7 +380,7 @@ func init() {
 		Check: func(x *vs.Exec, p explore.Params) {
 			c := cfgs[atoi(p["cfg"])]
 			l := lineFromKey(p["line"])
-			desc := fmt.Sprintf("cfg{%s} line=%q shape=%s", c, strings.ReplaceAll(strings.Join(l.fields(), "|"), realCertB64, "<valid-cert>"), l.shape)
+			desc := fmt.Sprintf("cfg{%s} line=%q shape=%s", c, strings.ReplaceAll(strings.ReplaceAll(strings.ReplaceAll(strings.Join(l.fields(), "|"), realCert2B64, "<two-certs>"), realCertJunkB64, "<cert+2-bytes>"), realCertB64, "<valid-cert>"), l.shape)
 			r := x.Data["runner"].(*scriptRunner)
 			x.OnCleanup(r.exit)
 			ok, why := refAccept(c, l)
